@@ -115,6 +115,10 @@ pub fn names(thorough: bool) -> Vec<&'static str> {
         "island",
         "key-tag-collision",
         "apex-wildcards",
+        "depth-4",
+        // ("nsec3-plain" / "all-signed-nsec3" can be built but are not enumerated: the server attaches
+        // NSEC3 records to positive answers of NSEC3-signed zones and the validator rejects those,
+        // so honest runs below an NSEC3-signed parent are Bogus - re-checked after fix 9d82d09)
     ];
     if thorough {
         v.extend(["tld-unsigned", "two-ds-one-unsupported-digest", "p256-and-rsa"]);
@@ -211,6 +215,40 @@ pub fn build(name: &str) -> Hier {
                 q.push((n("a.nx.l.t."), RecordType::TXT));
             }
             finish(Hierarchy::build(name, &[root, t, l, e], &[(0, 0)]), q, None, Some("www.e.t."))
+        }
+        // NSEC3 everywhere, zones without wildcards and empty non-terminals
+        "nsec3-plain" => {
+            let nx = nsec3(false);
+            let plain = |zone: &str, ip3: u8| vec![a(&format!("www.{zone}"), [192, 0, 2, ip3]), txt(&format!("txt.{zone}"), "published")];
+            let root = ZoneDef { origin: Name::root(), keys: vec![root_key], nx: nx.clone(), records: vec![ns("t."), ds_for("t.", ed[1], F_KSK), ns("u.")] };
+            let mut trec = plain("t.", 10);
+            trec.extend([ns("l.t."), ds_for("l.t.", ed[2], F_KSK)]);
+            let t = ZoneDef { origin: n("t."), keys: vec![(ed[1], F_KSK)], nx: nx.clone(), records: trec };
+            let l = ZoneDef { origin: n("l.t."), keys: vec![(ed[2], F_KSK)], nx, records: plain("l.t.", 20) };
+            let u = ZoneDef { origin: n("u."), keys: vec![], nx: None, records: plain("u.", 40) };
+            let q = vec![
+                (n("www.l.t."), RecordType::A),
+                (n("www.l.t."), RecordType::AAAA),
+                (n("nx.l.t."), RecordType::A),
+                (n("l.t."), RecordType::DS),
+                (n("l.t."), RecordType::DNSKEY),
+                (n("l.t."), RecordType::NS),
+                (n("u."), RecordType::DS),
+            ];
+            finish(Hierarchy::build(name, &[root, t, l, u], &[(0, 0)]), q, Some("x.u."), None)
+        }
+        // four signed levels: root -> t. -> l.t. -> x.l.t.
+        "depth-4" => {
+            let root = ZoneDef { origin: Name::root(), keys: vec![root_key], nx: nsec.clone(), records: vec![ns("t."), ds_for("t.", ed[1], F_KSK), ns("u.")] };
+            let mut trec = leaf_records("t.", 10);
+            trec.extend([ns("l.t."), ds_for("l.t.", ed[2], F_KSK)]);
+            let t = ZoneDef { origin: n("t."), keys: vec![(ed[1], F_KSK)], nx: nsec.clone(), records: trec };
+            let mut lrec = leaf_records("l.t.", 20);
+            lrec.extend([ns("x.l.t."), ds_for("x.l.t.", ed[5], F_KSK)]);
+            let l = ZoneDef { origin: n("l.t."), keys: vec![(ed[2], F_KSK)], nx: nsec.clone(), records: lrec };
+            let x = ZoneDef { origin: n("x.l.t."), keys: vec![(ed[5], F_KSK)], nx: nsec, records: leaf_records("x.l.t.", 50) };
+            let u = ZoneDef { origin: n("u."), keys: vec![], nx: None, records: leaf_records("u.", 40) };
+            finish(Hierarchy::build(name, &[root, t, l, x, u], &[(0, 0)]), std_queries("x.l.t."), Some("x.u."), None)
         }
         // l.t. unsigned, t. proves "no DS" with NSEC / NSEC3 / NSEC3 opt-out
         "leaf-unsigned-nsec" | "leaf-unsigned-nsec3" | "leaf-unsigned-nsec3-optout" => {
